@@ -1506,3 +1506,72 @@ func TestC07SimultaneousPublishers(t *testing.T) {
 		col.Case(true, hx.JSON(desc), func() any { return desc })
 	})
 }
+
+// TestC07FireAndForget: a publisher hands its EVENT over and hangs up at once, without waiting
+// for the OK (a script that posts and exits). The router has taken the event, so every
+// subscription that was open and matches receives it.
+func TestC07FireAndForget(t *testing.T) {
+	col := ev.For("C07").SetRule(c07Rule)
+	rapid.Check(t, func(t *rapid.T) {
+		nsub := rapid.IntRange(1, 12).Draw(t, "subscribers")
+		rounds := rapid.IntRange(50, 400).Draw(t, "rounds")
+		how := rapid.SampledFrom([]string{"cancel", "close-inbound"}).Draw(t, "publisher_ends_by")
+		router := mocrelay.NewRouterHandler(4)
+		authors := gen.Pubkeys(1)
+		desc := map[string]any{"mode": "fire-and-forget publisher", "subscribers": nsub, "rounds": rounds, "publisher_ends_by": how}
+		failf := func(sig, clause, obs string) {
+			hx.Fail(t, ev.Failure{Property: "C07", Signature: sig, Clause: clause, Case: desc, Observed: obs})
+		}
+		subs := make([]chan mocrelay.ServerMsg, nsub)
+		for i := range subs {
+			recv := make(chan mocrelay.ClientMsg)
+			send := make(chan mocrelay.ServerMsg)
+			ctx, cancel := context.WithCancel(context.Background())
+			t.Cleanup(cancel)
+			go router.ServeNostr(ctx, send, recv)
+			recv <- &mocrelay.ClientReqMsg{SubscriptionID: fmt.Sprint("s", i), ReqFilters: []*mocrelay.ReqFilter{{Kinds: []int64{1}}}}
+			if _, is := (<-send).(*mocrelay.ServerEOSEMsg); !is {
+				failf("no-eose", "every REQ is answered by EOSE", "first message is not EOSE")
+			}
+			subs[i] = send
+		}
+		for r := 0; r < rounds; r++ {
+			e := &mocrelay.Event{Pubkey: authors[0], Kind: 1, CreatedAt: int64(r), Tags: []mocrelay.Tag{}, Content: fmt.Sprint("fire-and-forget ", r)}
+			gen.Seal(e)
+			ctx, cancel := context.WithCancel(context.Background())
+			recv := make(chan mocrelay.ClientMsg)
+			send := make(chan mocrelay.ServerMsg, 1)
+			ret := make(chan error, 1)
+			go func() { ret <- router.ServeNostr(ctx, send, recv) }()
+			select {
+			case recv <- &mocrelay.ClientEventMsg{Event: e}:
+			case <-time.After(stepTimeout):
+				failf("stalled", "the router takes an EVENT", fmt.Sprintf("round %d", r))
+			}
+			if how == "cancel" {
+				cancel()
+			} else {
+				close(recv)
+			}
+			for i, s := range subs {
+				select {
+				case m := <-s:
+					em, is := m.(*mocrelay.ServerEventMsg)
+					if !is || em.Event.ID != e.ID || em.SubscriptionID != fmt.Sprint("s", i) {
+						failf("delivery-extra", "deliveries are the published event labelled with the subscription's id", fmt.Sprintf("round %d, subscriber %d: %s", r, i, hx.JSON(briefServer(m))))
+					}
+				case <-time.After(2 * time.Second):
+					failf("delivery-missing", "every subscription that was open and matches receives an event the router has taken (the publisher hung up right after handing it over)", fmt.Sprintf("round %d: subscriber %d of %d did not receive the event within 2 s", r, i, nsub))
+				}
+			}
+			cancel()
+			select {
+			case <-ret:
+			case <-time.After(stepTimeout):
+				failf("stalled", "the publisher's session ends", fmt.Sprintf("round %d", r))
+			}
+		}
+		col.Label("mode:fire-and-forget")
+		col.Case(true, hx.JSON(desc), func() any { return desc })
+	})
+}
